@@ -120,6 +120,16 @@ func vStartNode(dir string, bootstrap bool) (*vNode, error) {
 // (FSM.Apply), which is what replication does on a follower that lags behind.
 func vStartFollower(dir string) (*vNode, error) { return vStartNodeAs(dir, true, true) }
 
+// vStartQuietFollower is the same with election timers of an hour: the node stays in raft state Follower
+// (vStartFollower's node times out after 20 ms and is a Candidate from then on).
+func vStartQuietFollower(dir string) (*vNode, error) {
+	vQuietTimers = true
+	defer func() { vQuietTimers = false }()
+	return vStartNodeAs(dir, true, true)
+}
+
+var vQuietTimers bool
+
 func vStartNodeAs(dir string, bootstrap, follower bool) (*vNode, error) {
 	log.SetOutput(io.Discard)
 	// message ids = offset + raft index; main() sets the offset from a flag whose default is this value
@@ -149,6 +159,9 @@ func vStartNodeAs(dir string, bootstrap, follower bool) (*vNode, error) {
 	config.ElectionTimeout = 20 * time.Millisecond
 	config.LeaderLeaseTimeout = 20 * time.Millisecond
 	config.CommitTimeout = 2 * time.Millisecond
+	if vQuietTimers {
+		config.HeartbeatTimeout, config.ElectionTimeout, config.LeaderLeaseTimeout = time.Hour, time.Hour, time.Hour
+	}
 	config.SnapshotInterval = 24 * time.Hour
 	config.SnapshotThreshold = 1 << 40
 	config.TrailingLogs = 1 << 20
